@@ -16,7 +16,7 @@ package provider
 // The generic decoding provider: at most `limit` ammo are queued; end of data, the limit and cancellation end the run
 // without error; a decode failure fails it; the queue is closed on every exit.
 //@ func (p *DecodeProvider) Run
-//@ props C08 C13
+//@ props C08 C13 C05
 //@ nilsafe
 //@ requires p.OutQueue != nil && !closed(p.OutQueue) && p.conf.Source != nil && p.newDecoder != nil && ctx != nil
 //@ ghost sent0 = sent(p.OutQueue)
